@@ -68,7 +68,7 @@ def main(c):
             enc = bytearray(base64.b64encode(bytes(rnd.getrandbits(8) for _ in range(rnd.randint(0, 40)))))
             for _ in range(rnd.randint(0, 3)):
                 if enc:
-                    enc[rnd.randrange(len(enc))] = rnd.choice(b"=\x00\xff-_ ")
+                    enc[rnd.randrange(len(enc))] = rnd.choice([rnd.choice(b"=\x00\xff-_ "), rnd.randrange(128, 256), rnd.randrange(256)])
             codec.append("b64d " + hx(bytes(enc[:rnd.randint(0, len(enc))])))
         elif k == "addr":
             codec.append("sr " + hx(rnd.choice(["[", "[]", "[]:", "[]:1", "[:]:1", "[1.2.3.4]", "[1.2.3.4]:", "[1.2.3.4]:0", "[1.2.3.4]:65536", "[1.2.3.4]:99999999999999999999",
